@@ -83,3 +83,48 @@ Theorem C09_multiplier_in_range_partial : forall C N K lam,
   lam * lam <= (1 + (1 # 1000000000000)) * lambda_sq C (S N) K ->
   0 < lam /\ lam <= 1024.
 Proof. exact ComposeMcts.multiplier_in_range. Qed.
+
+(* ---- the same about Node.policy_probs REGENERATED FROM THE SOURCE (gen/MctsGen.v, harness/mcts2coq.py; proofs/MctsGenEq.v); solve_policy enters as an oracle (C10), the multiplier is the binary64 mirror of LambdaF64.v ---- *)
+From Coq Require Import ZArith QArith List Bool.
+From Coq Require Import Floats.SpecFloat.
+From TV Require Import model.Tak model.Road model.PySem model.Mcts model.MctsSem model.Solver model.LambdaF64.
+From TV Require Import proofs.MctsProofs proofs.MctsGenEq.
+From TV Require gen.MctsGen.
+(* (b) policy_probs(c): before any visit the prior, no solver call *)
+Theorem C09_source_gen_policy_probs_unvisited :
+  forall F f_sqrt f_mul f_div_int solve n c,
+  n_sims n = 0%nat ->
+  MctsGen.policy_probs F f_sqrt f_mul f_div_int solve (py_of n) c = Ok (pn_child_probs (py_of n)).
+Proof. exact gen_policy_probs_unvisited. Qed.
+(* ... at a visited node with children ONE solver call whose arguments are policy_inputs: the child priors, q =
+   minus the mean value of a visited child / the node's own evaluation, and the multiplier expression
+   f_div_int (f_mul c (f_sqrt N)) (N + K) on N = simulations, K = number of children *)
+Theorem C09_source_gen_policy_probs_eq :
+  forall F f_sqrt f_mul f_div_int solve n ks j c C i,
+  n_sims n = S j -> n_kids n = Some ks -> policy_inputs n C = Some i ->
+  MctsGen.policy_probs F f_sqrt f_mul f_div_int solve (py_of n) c =
+  (r <- solve (pi_prior i) (pi_q i)
+              (multiplier F f_sqrt f_mul f_div_int c (Z.of_nat (pi_N i)) (Z.of_nat (pi_K i))) ;; Ok (Some r)).
+Proof. exact gen_policy_probs_eq. Qed.
+(* ... with binary64 operations that expression is model/LambdaF64.v's bit-exact lambda64 *)
+Theorem C09_source_multiplier_is_lambda64 :
+  forall c N K,
+  multiplier spec_float (fun z => SFsqrt prec64 emax64 (b64_of_Z z)) (SFmul prec64 emax64)
+             (fun x d => SFdiv prec64 emax64 x (b64_of_Z d)) c N K = lambda64 c N K.
+Proof. exact multiplier_is_lambda64. Qed.
+(* ... a visited node without children (a terminal node) makes `for c in self.children` raise TypeError *)
+Theorem C09_source_gen_policy_probs_terminal :
+  forall F f_sqrt f_mul f_div_int solve n j c,
+  n_sims n = S j -> n_kids n = None ->
+  MctsGen.policy_probs F f_sqrt f_mul f_div_int solve (py_of n) c = Crash TypeError.
+Proof. exact gen_policy_probs_terminal. Qed.
+(* C09 transported: the arguments of that one call satisfy the solver's preconditions *)
+Theorem C09_source_gen_policy_call_preconditions :
+  forall F f_sqrt f_mul f_div_int solve cutoff n ks j c,
+  (0 < cutoff)%Q -> Good cutoff n -> Bounded n -> n_kids n = Some ks -> n_sims n = S j ->
+  live cutoff (n_pos n) (n_raw n) = true ->
+  exists pi q, MctsGen.policy_probs F f_sqrt f_mul f_div_int solve (py_of n) c =
+               (r <- solve pi q (multiplier F f_sqrt f_mul f_div_int c (Z.of_nat (S j)) (zlen ks)) ;; Ok (Some r)) /\
+               Forall (fun x => 0 < x)%Q pi /\ (sumq pi == 1)%Q /\ length pi = length q /\
+               Forall (fun x => -1 <= x <= 1)%Q q.
+Proof. exact gen_policy_call_preconditions. Qed.
